@@ -936,6 +936,14 @@ func ReadMessagesMode(r io.Reader, mode int, withMetaCB bool, keepOrig bool, max
 		}
 		if err != nil {
 			res.Err = err
+			if errors.Is(err, io.EOF) {
+				// a loop that polls again at the end (or a caller that checks twice) is told the same
+				if _, _, m2, err2 := it.NextInto(nil); err2 == nil {
+					res.Err = fmt.Errorf("harness: after io.EOF the iterator returned another message (seq %d)", m2.Sequence)
+				} else if !errors.Is(err2, io.EOF) {
+					res.Err = fmt.Errorf("harness: after io.EOF the iterator returned %w", err2)
+				}
+			}
 			return res
 		}
 		res.Items = append(res.Items, Triple{FromSchema(s), FromChannel(c), FromMessage(m)})
